@@ -161,6 +161,8 @@ type subState struct {
 	ctx      context.Context
 	cancel   context.CancelFunc
 	unsubbed atomic.Bool
+	quit     chan struct{} // closed by unsub / stop: the goroutine must end
+	quitOnce sync.Once
 	cmds     chan cmd
 	done     chan struct{}
 	n        int          // Write calls so far (goroutine only)
@@ -327,7 +329,7 @@ func (w *world) sub(ctx context.Context, a int, b string) (any, *jr.Error) {
 	w.mu.Lock()
 	_, exists := w.subs[subKey(ct, a)]
 	if !exists {
-		s := &subState{w: w, connTag: ct, key: a, conn: conn, cmds: make(chan cmd), done: make(chan struct{}), state: "active"}
+		s := &subState{w: w, connTag: ct, key: a, conn: conn, cmds: make(chan cmd), done: make(chan struct{}), quit: make(chan struct{}), state: "active"}
 		s.ctx, s.cancel = context.WithCancel(conn.Context())
 		if a >= freeRunFrom {
 			s.free = 1 << 30
@@ -367,8 +369,7 @@ func (w *world) unsub(ctx context.Context, a int, b string) (any, *jr.Error) {
 	}
 	w.mu.Unlock()
 	if active {
-		s.unsubbed.Store(true)
-		s.cancel()
+		s.end()
 		<-s.done // like rpc/v10 Unsubscribe: answer only after the subscription goroutine has ended
 	}
 	if e := leave(); e != nil {
@@ -389,6 +390,12 @@ func notePayload(connTag string, key, n, padLen int) []byte {
 		noteMethod, connTag, key, n, padFor(key, n, padLen)))
 }
 
+func (s *subState) end() {
+	s.unsubbed.Store(true)
+	s.quitOnce.Do(func() { close(s.quit) })
+	s.cancel()
+}
+
 func (s *subState) run() {
 	defer close(s.done)
 	ctxDone := s.ctx.Done()
@@ -396,6 +403,8 @@ func (s *subState) run() {
 		if s.free > 0 && ctxDone != nil {
 			select {
 			case <-ctxDone:
+			case <-s.quit:
+				return
 			default:
 				s.n++
 				if _, err := s.conn.Write(notePayload(s.connTag, s.key, s.n, s.padLen)); err == nil {
@@ -406,6 +415,8 @@ func (s *subState) run() {
 			}
 		}
 		select {
+		case <-s.quit:
+			return
 		case <-ctxDone:
 			if s.unsubbed.Load() {
 				return
@@ -451,11 +462,9 @@ func (s *subState) stop() {
 		return
 	default:
 	}
-	s.unsubbed.Store(true)
-	s.cancel()
+	s.end()
 	select {
 	case <-s.done:
-	case <-s.ask("exit"):
 	case <-time.After(stepWait):
 	}
 }
@@ -1543,8 +1552,15 @@ func (g *engine) replay(b *behaviour, idx int) {
 	}
 	if r.by, err = w.dial(fmt.Sprintf("by%d", idx)); err == nil {
 		_ = r.by.send([]byte(`{"jsonrpc":"2.0","method":"sub","params":[1,"by"],"id":1}`))
-		if f, ok := r.by.next(stepWait); !ok || f.err != nil || !bytes.Contains(f.data, []byte(`"result":{"sub":1}`)) {
+		if f, ok := r.by.next(stepWait); !ok {
 			r.timeout("bystander subscribe")
+		} else if f.err != nil {
+			r.diverge("ws-directed:exchange-failed", "a plain subscribe on a fresh connection ended the connection: "+f.err.Error(), nil, f.err.Error())
+		} else if _, why := parseFrame(f.data); why != "" {
+			r.diverge("ws-frame:malformed:"+keyify(why), "a frame received on the websocket is not a well-formed JSON-RPC response: "+why, nil, short(f.data))
+		} else if !bytes.Contains(f.data, []byte(`"result":{"sub":1}`)) || !bytes.Contains(f.data, []byte(`"id":1`)) {
+			r.diverge("ws-response:entry-unanswered-or-wrong:result:0", "a plain subscribe on a fresh connection is not answered with its result and id",
+				`{"jsonrpc":"2.0","result":{"sub":1},"id":1}`, short(f.data))
 		}
 	}
 	for i, s := range b.Steps {
